@@ -134,7 +134,7 @@ TIERS["C20"] = {
 THEOREMS = {
     "C09": ["ThmPfbaFormulation", "ThmPfbaMonotone", "ThmMomaFormulation", "ThmRoomFormulation", "ThmAdjustSanity",
             "ThmRefsInScope"],
-    "C06": ["ThmGeneKOProtocol", "ThmRuleEval", "ThmCombinations", "ThmEssential"],
+    "C06": ["ThmGeneKOProtocol", "ThmGeneDeletionPrior", "ThmRuleEval", "ThmCombinations", "ThmEssential"],
     "C18": ["ThmMediumInverse", "ThmMinMedium"],
     "C20": ["ThmSummary"],
 }
@@ -142,7 +142,8 @@ CONTROLS = {      # Bug -> the theorem TLC must reject
     "C09": [("pfba_forward_only", "ThmPfbaFormulation"), ("room_no_abs", "ThmRoomFormulation"),
             ("moma_difference_sign", "ThmMomaFormulation")],
     "C06": [("rule_and_as_any", "ThmRuleEval"), ("gene_ko_zeroes_all_associated", "ThmGeneKOProtocol"),
-            ("combinations_drop_diagonal", "ThmCombinations")],
+            ("combinations_drop_diagonal", "ThmCombinations"),
+            ("gene_deletion_ignores_prior", "ThmGeneDeletionPrior")],
     "C18": [("medium_is_export_inverted", "ThmMediumInverse"), ("components_counts_exports", "ThmMinMedium")],
     "C20": [("summary_no_minmax_swap", "ThmSummary")],
 }
@@ -342,21 +343,24 @@ def _gene_text(text, M, pal):
 
 
 def drive_c06(item, rec):
+    import contextlib
     import cobra
     import pandas as pd
     from cobra.flux_analysis import (double_gene_deletion, double_reaction_deletion, find_essential_genes,
                                      find_essential_reactions, single_gene_deletion, single_reaction_deletion)
     inst, pal = item["inst"], item["pal"]
-    M = dict(inst["M"])
-    M["rules"] = [_gene_text(t, M, pal) for t in inst["M"]["ruletext"]]
-    model, rxns, mets = build_model(M, pal)
+    MB = dict(inst["M"])
+    MB["rules"] = [_gene_text(t, MB, pal) for t in inst["M"]["ruletext"]]
     M = inst["M"]
-    genes = [model.genes.get_by_id(pal["gx"].format(g)) for g in M["genes"]]
-    if len(model.genes) != len(genes):
-        raise C.Machinery("gene list of the built model differs from the instance")
-    rpos = {r.id: i + 1 for i, r in enumerate(rxns)}
-    gpos = {g.id: i + 1 for i, g in enumerate(genes)}
-    ids = [r.id for r in rxns]
+
+    def fresh():
+        model, rxns, mets = build_model(MB, pal)
+        genes = [model.genes.get_by_id(pal["gx"].format(g)) for g in M["genes"]]
+        if len(model.genes) != len(genes):
+            raise C.Machinery("gene list of the built model differs from the instance")
+        return model, rxns, genes
+
+    shared = fresh()
     events = []
     for j, cl in enumerate(inst["calls"]):
         ev = dict(cl)
@@ -368,48 +372,59 @@ def drive_c06(item, rec):
             continue
         k = cl["k"]
         isr = k in ("srd", "drd", "ess_r")
+        # calls from a prior knock-out state get their own model object (the state may be permanent)
+        model, rxns, genes = shared if cl["pmode"] == "none" else fresh()
+        ids = [r.id for r in rxns]
+        rpos = {r.id: i + 1 for i, r in enumerate(rxns)}
+        gpos = {g.id: i + 1 for i, g in enumerate(genes)}
         pool, pos = (rxns, rpos) if isr else (genes, gpos)
 
         def mk(lst):
             return [pool[i - 1] if cl["byobj"] else pool[i - 1].id for i in lst]
         try:
-            if k in ("ess_r", "ess_g"):
-                thr = None if cl["tdefault"] else cl["tnum"] / cl["tden"]
-                fn = find_essential_reactions if isr else find_essential_genes
-                res = fn(model, threshold=thr, processes=1)
-                ev["ess"] = sorted(pos.get(x.id, 0) for x in res)
-            else:
-                kw = {"method": "fba" if cl["method"] == "fba" else "linear moma", "processes": 1}
-                if cl["refgiven"]:
-                    kw["solution"] = cobra.Solution(float(cl["refobj"]), "optimal",
-                                                    fluxes=pd.Series([float(x) for x in cl["ref"]], index=ids))
-                a = mk(cl["l1"]) if cl["l1given"] else None
-                b = mk(cl["l2"]) if cl["l2given"] else None
-                if k == "srd":
-                    df = single_reaction_deletion(model, a, **kw)
-                elif k == "sgd":
-                    df = single_gene_deletion(model, a, **kw)
-                elif k == "drd":
-                    df = double_reaction_deletion(model, a, b, **kw)
-                elif k == "dgd":
-                    df = double_gene_deletion(model, a, b, **kw)
+            with (model if cl["pctx"] else contextlib.nullcontext()):
+                for g in cl["prior"]:
+                    if cl["pmode"] == "ko":
+                        genes[g - 1].knock_out()
+                    elif cl["pmode"] == "flag":
+                        genes[g - 1].functional = False
+                if k in ("ess_r", "ess_g"):
+                    thr = None if cl["tdefault"] else cl["tnum"] / cl["tden"]
+                    fn = find_essential_reactions if isr else find_essential_genes
+                    res = fn(model, threshold=thr, processes=1)
+                    ev["ess"] = sorted(pos.get(x.id, 0) for x in res)
                 else:
-                    raise C.Machinery("unknown call %r" % (k,))
-                rows = []
-                acc = True
-                for _, row in df.iterrows():
-                    gk, g = fx(row["growth"])
-                    rows.append({"ids": sorted(pos.get(x, 0) for x in row["ids"]), "gk": gk, "growth": g,
-                                 "status": str(row["status"])})
-                    try:
-                        sub = df.knockout[set(row["ids"])]
-                        same = len(sub) >= 1 and all(set(x) == set(row["ids"]) for x in sub["ids"])
-                        n_same = sum(1 for x in df["ids"] if set(x) == set(row["ids"]))
-                        acc = acc and same and len(sub) == n_same
-                    except Exception:
-                        acc = False
-                rows.sort(key=lambda r: r["ids"])
-                ev["rows"], ev["accessor"] = rows, bool(acc)
+                    kw = {"method": "fba" if cl["method"] == "fba" else "linear moma", "processes": 1}
+                    if cl["refgiven"]:
+                        kw["solution"] = cobra.Solution(float(cl["refobj"]), "optimal",
+                                                        fluxes=pd.Series([float(x) for x in cl["ref"]], index=ids))
+                    a = mk(cl["l1"]) if cl["l1given"] else None
+                    b = mk(cl["l2"]) if cl["l2given"] else None
+                    if k == "srd":
+                        df = single_reaction_deletion(model, a, **kw)
+                    elif k == "sgd":
+                        df = single_gene_deletion(model, a, **kw)
+                    elif k == "drd":
+                        df = double_reaction_deletion(model, a, b, **kw)
+                    elif k == "dgd":
+                        df = double_gene_deletion(model, a, b, **kw)
+                    else:
+                        raise C.Machinery("unknown call %r" % (k,))
+                    rows = []
+                    acc = True
+                    for _, row in df.iterrows():
+                        gk, g = fx(row["growth"])
+                        rows.append({"ids": sorted(pos.get(x, 0) for x in row["ids"]), "gk": gk, "growth": g,
+                                     "status": str(row["status"])})
+                        try:
+                            sub = df.knockout[set(row["ids"])]
+                            same = len(sub) >= 1 and all(set(x) == set(row["ids"]) for x in sub["ids"])
+                            n_same = sum(1 for x in df["ids"] if set(x) == set(row["ids"]))
+                            acc = acc and same and len(sub) == n_same
+                        except Exception:
+                            acc = False
+                    rows.sort(key=lambda r: r["ids"])
+                    ev["rows"], ev["accessor"] = rows, bool(acc)
         except C.Machinery:
             raise
         except Exception as e:
